@@ -326,8 +326,26 @@ def check_package_reader(data, content, order, title, byteorder):
             if e.filename != s.filename or e.filepath != s.filepath:
                 probs.append(f'run {r}: strings differ')
         pw = got[('pix', 'data_wrap')]
-        if pw.shape != (content['pixels'].sizes['obs'], 9):
+        pix = content['pixels']
+        if pw.shape != (pix.sizes['obs'], 9):
             probs.append(f'reader returns pixel array of shape {pw.shape}')
+        else:
+            # the same numbers: pixel k, row r is the supplied value in the declared unit of the row, rounded once to float32
+            for k, (name, unit) in enumerate(zip(ROWS, ROW_UNITS)):
+                src = sc.values(pix.data) if name == 'signal' else (sc.variances(pix.data) if name == 'error' else pix.coords[name])
+                want = (src.to(unit=unit, dtype='float64') if unit is not None else src).values.astype('float64').astype('float32')
+                if not np.array_equal(np.asarray(pw)[:, k], want):
+                    bad = int(np.argmax(np.asarray(pw)[:, k] != want))
+                    probs.append(f'package reader, pixel row {name}: pixel {bad} read back as {np.asarray(pw)[bad, k]!r}, supplied {want[bad]!r}')
+                    break
+        pm = got.get(('pix', 'metadata'))
+        if pm is not None and int(pm.npix) != pix.sizes['obs']:
+            probs.append(f'package reader: pixel metadata npix {pm.npix} != {pix.sizes["obs"]}')
+    if 'dnd' in order and ('data', 'nd_data') in got:
+        nb = [int(x) for x in content['dnd'].axes.n_bins_all_dims.values]
+        arrs = got[('data', 'nd_data')]
+        if len(arrs) != 3 or any(sorted(np.shape(a)) != sorted(nb) for a in arrs) or any(np.any(np.asarray(a) != 0) for a in arrs):
+            probs.append(f'package reader: histogram arrays of shapes {[np.shape(a) for a in arrs]} (declared bins {nb}) or not all zero')
     mh = got[('', 'main_header')]
     if mh.title != title:
         probs.append('title differs (package reader)')
